@@ -84,7 +84,7 @@ def negatives_join(h):
     return names
 
 
-def both(v, pid, b, d, table, rep, focus, runs, enum=None):
+def both(v, pid, b, d, table, rep, focus, runs, enum=None, hot=0):
     """M2 cases and M1 random traces: drivers one after the other (they time real runs), TLC validations and the
     binding self-test side by side."""
     keys = sorted(table)
@@ -93,7 +93,7 @@ def both(v, pid, b, d, table, rep, focus, runs, enum=None):
     p1 = os.path.join(d, "%s_cases_out.ndjson" % pid)
     vlib.run_driver(b, ["pool", "-out", p1, "-cases", cpath, "-rep", str(rep)], timeout=3000)
     p2 = os.path.join(d, "%s_traces_out.ndjson" % pid)
-    vlib.run_driver(b, ["pool", "-out", p2, "-runs", str(runs), "-focus", focus], timeout=3000)
+    vlib.run_driver(b, ["pool", "-out", p2, "-runs", str(runs), "-focus", focus, "-hot", str(hot)], timeout=3000)
     rows_c, rows_t = vlib.read_ndjson(p1), vlib.read_ndjson(p2)
     if enum:
         # complete small parameter space of the startup constructors (driver: plEnumStartupConfs)
@@ -142,7 +142,10 @@ def validate(v, pid, rows, d, tag):
         idx = min(max(ln - (1 if tr.what == "Accepted" else 2), 0), len(rows) - 1)
         ev = rows[idx]
         run = ev["run"]
-        conf = next(r for r in rows if r["ev"] == "conf" and r["run"] == run)
+        if ev["ev"] == "hot":       # a high-contention run is one summary entry: it is its own configuration
+            conf = dict(ev, per=False, discard=False)
+        else:
+            conf = next(r for r in rows if r["ev"] == "conf" and r["run"] == run)
         bad = tr.trace_state.get("bad", "").replace(" ", "").replace('"', "")
         what = tr.what
         detail = bad if what == "NoViolation" else (ev["ev"] if what == "Accepted" else "")
@@ -153,7 +156,8 @@ def validate(v, pid, rows, d, tag):
         else:
             msg = "recorded run of the real engine violates %s %s after entry %s" % (
                 what, bad, {k: ev.get(k) for k in ("ev", "inst", "item", "n", "k", "sid", "ok", "err", "request",
-                                                   "response", "inst_start", "inst_finish") if k in ev})
+                                                   "response", "inst_start", "inst_finish", "fired", "acquired",
+                                                   "released", "created") if k in ev})
         v.violation("pool trace inv=%s %s mode=%s discard=%s" % (what, detail, mode, conf["discard"]),
                     "%s [%s]" % (msg, conf["desc"]),
                     replay_obj={"kind": "trace", "conf": conf, "events": [r for r in rows if r["run"] == run], "at": idx,
